@@ -81,7 +81,8 @@ def _helper_read_frame(lit: LineIterator) -> tuple:
     title = line.split(",")[0] if "t=" in line else line[:-1]
     time = 0.0
     if "t=" in line:
-        time = float(line.split("t=")[1]) * picosecond
+        # The time may be followed by other fields, e.g. "step= 100".
+        time = float(line.split("t=")[1].split()[0]) * picosecond
     # Read the second line for number of atoms.
     natoms = int(next(lit))
     # Read the atom lines
